@@ -201,7 +201,8 @@ theorem wf_randomFilter (c : Ctx) (h : CtxOK c) : wfExprs (randomFilter c) = tru
 
 theorem wf_attrCondition (c : Ctx) (hc : CtxOK c) (terms : List Term) (cond : Cond) (aggAttr : String) (S : Sel)
     (h : attrCondition c terms cond aggAttr = .ok S) : wfSel S = true := by
-  unfold attrCondition at h
+  obtain ⟨_, h⟩ := attrCondition_core h
+  unfold attrConditionCore at h
   cases hm : mapOk termSql terms with
   | error e => simp [hm, bind, Except.bind] at h
   | ok es =>
@@ -235,7 +236,7 @@ theorem wf_attrless (c : Ctx) (h : CtxOK c) : wfSel (attrless c) = true := by
     simp only [List.mem_cons, List.not_mem_nil, or_false] at hw
     rcases hw with rfl | rfl | rfl
     · refine ⟨word_trace_ids.withAlias, wfSel_nowith rfl ?_⟩
-      simp only [simpleCol, and_, ge, le, wfSelBody, wfExprs, wfExpr, wfJoins, h.traces, rawE_intText,
+      simp only [simpleCol, and_, ge, lt, wfSelBody, wfExprs, wfExpr, wfJoins, h.traces, rawE_intText,
         Bool.and_eq_true, Bool.and_true, Bool.true_and]
       decide +kernel
     · refine ⟨word_trace_and_span_ids.withAlias, wfSel_nowith rfl ?_⟩
@@ -467,7 +468,8 @@ theorem wf_selectTags (c : Ctx) (hc : CtxOK c) (col : String) (hcol : WordS col)
   simp only
   refine wfSel_with_ _ _ ?_ ?_
   · have c1 := wfExpr_simpleCol hcol hcol
-    simp only [and_, ge, le, lt, wfSelBody, wfExprs, wfExpr, wfJoins, Alias.text, c1, hc.attrsDist, rawE_intText,
+    have c2 : rawE (b col) = true := hcol.isRawE
+    simp only [and_, ge, le, lt, wfSelBody, wfExprs, wfExpr, wfJoins, Alias.text, c1, c2, hc.attrsDist, rawE_intText,
       Bool.and_eq_true, Bool.and_true, Bool.true_and]
     decide +kernel
   · intro w hw
@@ -521,14 +523,20 @@ theorem wf_tagsMain (c : Ctx) (hc : CtxOK c) (script : Script) (m : Sel) (h : ta
             subst h
             exact wf_attrCondition c hc _ _ _ SA hat
 
-/-- **`planTags`** -/
-theorem wf_planTags (c : Ctx) (hc : CtxOK c) (script : Script) (X : Sel) (h : planTags c script = .ok X) : wfSel X = true := by
+/-- **`planTags`**; `kvTable` is the name of the key/value table (configuration) -/
+theorem wf_planTags (c : Ctx) (hc : CtxOK c) (kvTable : String) (hkv : rawE (b kvTable) = true) (script : Script) (X : Sel)
+    (h : planTags c kvTable script = .ok X) : wfSel X = true := by
   unfold planTags at h
   cases hm : tagsMain c script with
   | error e => simp [hm, bind, Except.bind] at h
   | ok om =>
     cases om with
-    | none => simp [hm, bind, Except.bind, throw, throwThe, MonadExceptOf.throw] at h
+    | none =>
+      simp [hm, bind, Except.bind, pure, Except.pure] at h
+      rw [← h]
+      simp only [allTags, simpleCol, and_, ge, le, wfSel, wfWiths, wfSelBody, wfExprs, wfExpr, wfJoins, hkv,
+        Bool.and_eq_true, Bool.and_true, Bool.true_and]
+      decide +kernel
     | some m =>
       simp [hm, bind, Except.bind, pure, Except.pure] at h
       rw [← h]
@@ -536,6 +544,13 @@ theorem wf_planTags (c : Ctx) (hc : CtxOK c) (script : Script) (X : Sel) (h : pl
 
 theorem wf_keyEq (key : Bytes) : wfExprs [eq (.raw "key") (.str key)] = true := by
   simp only [eq, wfExprs, wfExpr, Bool.and_true, Bool.and_eq_true]; decide +kernel
+
+theorem wfSel_setGroupBy (s : Sel) (g : List Expr) (hs : wfSel s = true) (hg : wfExprs g = true) :
+    wfSel (s.setGroupBy g) = true := by
+  cases s
+  simp only [Sel.setGroupBy, wfSel] at hs ⊢; unfold wfSelBody at hs ⊢; simp only [Bool.and_eq_true] at hs ⊢
+  obtain ⟨hw, ⟨⟨⟨⟨⟨⟨⟨h1, h2⟩, h3⟩, h4⟩, _⟩, h6⟩, h7⟩, h8⟩⟩ := hs
+  exact ⟨hw, ⟨⟨⟨⟨⟨⟨⟨h1, h2⟩, h3⟩, h4⟩, hg⟩, h6⟩, h7⟩, h8⟩⟩
 
 /-- **`planValues`**; `kvTable` is the name of the key/value table (configuration), `key` the requested tag: a leaf -/
 theorem wf_planValues (c : Ctx) (hc : CtxOK c) (kvTable : String) (hkv : rawE (b kvTable) = true) (key : Bytes)
@@ -548,17 +563,16 @@ theorem wf_planValues (c : Ctx) (hc : CtxOK c) (kvTable : String) (hkv : rawE (b
     | none =>
       simp [hm, bind, Except.bind, pure, Except.pure] at h
       rw [← h]
-      simp only [simpleCol, and_, eq, ge, le, wfSel, wfWiths, wfSelBody, wfExprs, wfExpr, wfJoins, hkv,
+      simp only [allValues, simpleCol, and_, eq, ge, le, wfSel, wfWiths, wfSelBody, wfExprs, wfExpr, wfJoins, hkv,
         Bool.and_eq_true, Bool.and_true, Bool.true_and]
       decide +kernel
     | some m =>
       simp [hm, bind, Except.bind, pure, Except.pure] at h
       rw [← h]
       have ht := wf_tagsOrder c _ word_key _ (wf_selectTags c hc _ word_key m (wf_tagsMain c hc script m hm))
-      refine wf_tagsOrder c _ word_val _ (wfSel_andWhere _ _ ?_ (wf_keyEq key))
-      generalize tagsOrder c "key" (selectTags c "key" m) = T at ht ⊢
-      obtain ⟨ws, d, cs, f, j, p, w, g, hv, o, l⟩ := T
-      show wfSel (Sel.setCols (.mk ws d cs f j p w g hv o l) [simpleCol "val" "val"]) = true
-      exact wfSel_setCols _ _ ht (by simp only [wfExprs, wfExpr_simpleCol word_val word_val, Bool.and_self])
+      refine wf_tagsOrder c _ word_val _ (wfSel_setGroupBy _ _ (wfSel_andWhere _ _ ?_ (wf_keyEq key)) ?_)
+      · exact wfSel_setCols _ _ ht (by simp only [wfExprs, wfExpr_simpleCol word_val word_val, Bool.and_self])
+      · have := wfExpr_raw_word word_val
+        simp only [wfExprs, this, Bool.and_self]
 
 end Qryn.TraceQL
